@@ -2,7 +2,7 @@
 bookkeeping; the string arithmetic of routing is not decided)."""
 from qv.core import AnalysisBroken
 from qv.esp import Engine, Outcome, TOP, fs
-from qv.lib import QHooks
+from qv.lib import QHooks, lit_of
 from rules import qsend
 from rules.qsend import attach, g1
 
@@ -366,33 +366,130 @@ def run(ctx):
     gc = prog.fn('getcontrols', 'qmail-send.c')
     rg = prog.fn('regetcontrols', 'qmail-send.c')
 
-    def flags(f):
-        out = {}
-        for c in f.calls('constmap_init'):
-            m = c.args[0].strip().args[0].path()
-            out.setdefault(m, set()).add(c.args[3].const)
-        return out
-    fg, fr = flags(gc), flags(rg)
-    for m in sorted(fr):
-        r5.check(fr[m] == fg.get(m), 'colon-flag-agrees:%s' % m[2:], rg.unit + ':regetcontrols', 'constmap_init(&%s,..,flag): getcontrols uses %s, regetcontrols uses %s' % (m[2:], sorted(fg.get(m, [])), sorted(fr[m])))
-    r5.check({'G:maplocals', 'G:mapvdoms'} <= set(fr), 'both-maps-rebuilt', rg.unit + ':regetcontrols', 'maps rebuilt on HUP: %s' % sorted(fr))
-    frees = rg.calls('constmap_free')
-    reads = rg.calls('control_readfile')
-    ok = bool(frees) and len(reads) >= 2 and all(rg.dominates(rd, fr_) for rd in reads for fr_ in frees)
-    r5.check(ok, 'reread-succeeds-before-anything-is-freed', rg.unit + ':regetcontrols', 'constmap_free must be dominated by both control_readfile calls')
-    for rd in reads:
-        blk = rg.blocks[rg.pos[rd.id][0]]
-        r5.check(blk.cond is not None and rd.id in {y.id for y in blk.cond.walk()} or any(x.k == 'asg' and x.args[1].strip().id == rd.id for x in rg.all_x()),
-                 'control_readfile-result-checked:%s' % rd.args[1].string, rd.where, 'result of control_readfile is ignored')
-    for init in rg.calls('constmap_init'):
-        m = init.args[0].strip().args[0].path()
-        fr_m = [f for f in frees if f.args[0].strip().args[0].path() == m]
-        r5.check(bool(fr_m) and rg.dominates(fr_m[0], init), 'free-before-init:%s@%d' % (m[2:], init.line), init.where, 'map %s re-initialised without being freed' % m[2:])
+    class MapHooks(QHooks):
+        """getcontrols()/regetcontrols() over the outcomes of reading the two list files: which maps are freed and rebuilt, from what, with which colon flag"""
+        def __init__(self, outcomes):
+            self.outcomes = outcomes          # control file name -> result of control_readfile
+            self.ends = []
+
+        def tracked_global(self, path):
+            return True
+
+        def precise_arith(self, path):
+            return True
+
+        def ev(self, E, e):
+            E.set('$ev', fs(tuple(g1(E, '$ev', ())) + (e,)))
+
+        def materialize(self, E, path):
+            if path.endswith('.s') and path.startswith('G:'):
+                return fs(('&', path + '[0]'))         # the text of a list: recognisable by the object it belongs to
+            return TOP
+
+        def prim_control_readfile(self, E, x, args):
+            fnm = lit_of(E, x.args[1])
+            dst = g1v(args[0])
+            r_ = self.outcomes.get(fnm, 1)
+            self.ev(E, ('read', fnm, r_))
+            return [Outcome(ret=fs(r_), sets={'$from:%s' % (dst[1] if isinstance(dst, tuple) else dst): fs(fnm)} if r_ == 1 else {})]
+
+        def prim_stralloc_copy(self, E, x, args):
+            dst, src = g1v(args[0]), g1v(args[1])
+            if isinstance(dst, tuple) and isinstance(src, tuple):
+                f_ = g1(E, '$from:%s' % src[1])
+                return [Outcome(ret=fs(1), sets={'$from:%s' % dst[1]: fs(f_)} if f_ else {})]
+            return [Outcome(ret=fs(1))]
+
+        def prim_constmap_free(self, E, x, args):
+            self.ev(E, ('free', g1v(args[0])))
+            return [Outcome(ret=TOP)]
+
+        def prim_constmap_init(self, E, x, args):
+            src = g1v(args[1])
+            origin = None
+            if isinstance(src, tuple) and src[0] == '&':
+                base = src[1][:-len('.s[0]')] if src[1].endswith('.s[0]') else src[1]
+                origin = g1(E, '$from:%s' % base)
+            elif isinstance(src, tuple) and src[0] == 'str':
+                origin = ('lit', src[1])
+            self.ev(E, ('init', g1v(args[0]), origin, g1v(args[3]), g1v(args[2])))
+            return [Outcome(ret=fs(1))]
+
+        def _ok1(self, E, x, args):
+            return [Outcome(ret=fs(1))]
+
+        def _ok0(self, E, x, args):
+            return [Outcome(ret=fs(0))]
+
+        def _n(self, E, x, args):
+            return [Outcome(ret=TOP)]
+
+        prim_control_rldef = prim_control_readint = prim_control_readline = prim_stralloc_cats = prim_stralloc_cat = prim_stralloc_0 = prim_stralloc_copys = prim_stralloc_append = _ok1
+        prim_control_init = _ok0
+        prim_log1 = prim_log2 = prim_log3 = prim_nomem = _n
+
+        def on_return(self, E, fn, val):
+            if fn.name in ('getcontrols', 'regetcontrols'):
+                self.ends.append((g1v(val) if val is not TOP else None, tuple(g1(E, '$ev', ())), E.trace.list()))
+
+    from rules.qsend import g1v
+    LOC, VD = 'control/locals', 'control/virtualdomains'
+
+    def maps(fn_, outcomes):
+        H_ = MapHooks(outcomes)
+        e_ = Engine(db, prog, H_, max_states=200000)
+        e_.run(fn_, {})
+        rep.count_states(e_.states, e_.transitions)
+        if len(H_.ends) != 1:
+            raise AnalysisBroken('%s: %d ends explored for read outcomes %s' % (fn_.name, len(H_.ends), outcomes))
+        return H_.ends[0]
+    # start-up: which flag each map gets
+    _, ev0, _ = maps(gc, {LOC: 1, VD: 1})
+    flags0 = {e[1]: e[3] for e in ev0 if e[0] == 'init'}
+    if not {('&', 'G:maplocals'), ('&', 'G:mapvdoms')} <= set(flags0):
+        raise AnalysisBroken('getcontrols: maps initialised: %s' % sorted(flags0))
+    r5.check(flags0[('&', 'G:maplocals')] == 0 and flags0[('&', 'G:mapvdoms')] == 1, 'start-up-colon-flags', gc.unit + ':getcontrols',
+             'locals must be a plain list (flag 0) and virtualdomains a key:value list (flag 1); found %s' % flags0)
+    bad5 = {}
+    for oc in ({LOC: 1, VD: 1}, {LOC: 1, VD: 0}, {LOC: -1, VD: 1}, {LOC: 0, VD: 1}, {LOC: 1, VD: -1}):
+        _, ev, tr = maps(rg, oc)
+        frees = [e[1] for e in ev if e[0] == 'free']
+        inits = [e for e in ev if e[0] == 'init']
+        reads_ok = oc[LOC] == 1 and oc[VD] != -1
+        txt = 'control/locals read with result %d, control/virtualdomains with %d' % (oc[LOC], oc[VD])
+        if not reads_ok:
+            if frees or inits:
+                bad5.setdefault('reread-succeeds-before-anything-is-freed', ('%s: maps freed %s, rebuilt %s although the re-read failed: the daemon goes on with empty or half-built routing tables' % (txt, frees, [i[1] for i in inits]), tr))
+            continue
+        # nothing is freed before both files were read
+        first_free = min([k for k, e in enumerate(ev) if e[0] == 'free'] or [len(ev)])
+        n_reads_before = len([e for e in ev[:first_free] if e[0] == 'read'])
+        if n_reads_before < 2:
+            bad5.setdefault('reread-succeeds-before-anything-is-freed', ('%s: a map is freed after %d of the 2 files were read' % (txt, n_reads_before), tr))
+        got = {i[1]: i for i in inits}
+        if set(got) != {('&', 'G:maplocals'), ('&', 'G:mapvdoms')} or len(inits) != 2:
+            bad5.setdefault('both-maps-rebuilt', ('%s: maps rebuilt on HUP: %s' % (txt, [i[1] for i in inits]), tr))
+            continue
+        for m_, i_ in got.items():
+            if i_[3] != flags0[m_]:
+                bad5.setdefault('colon-flag-agrees:%s' % m_[1][2:], ('%s: constmap_init(&%s,..,%s) on HUP, %s at start-up' % (txt, m_[1][2:], i_[3], flags0[m_]), tr))
+            k_init = ev.index(i_)
+            if m_ not in [e[1] for e in ev[:k_init] if e[0] == 'free']:
+                bad5.setdefault('free-before-init:%s' % m_[1][2:], ('%s: map %s re-initialised without being freed' % (txt, m_[1][2:]), tr))
+        want_l, want_v = LOC, (VD if oc[VD] == 1 else ('lit', ''))
+        if got[('&', 'G:maplocals')][2] != want_l or (got[('&', 'G:mapvdoms')][2] != want_v and not (oc[VD] == 0 and got[('&', 'G:mapvdoms')][4] == 0)):
+            bad5.setdefault('maps-rebuilt-from-the-files-just-read', ('%s: maplocals is rebuilt from %s, mapvdoms from %s (documented: the new contents of the two files; no virtualdomains file = empty map)' %
+                                                                      (txt, got[('&', 'G:maplocals')][2], got[('&', 'G:mapvdoms')][2]), tr))
+    for k_ in ('reread-succeeds-before-anything-is-freed', 'both-maps-rebuilt', 'colon-flag-agrees:maplocals', 'colon-flag-agrees:mapvdoms',
+               'free-before-init:maplocals', 'free-before-init:mapvdoms', 'maps-rebuilt-from-the-files-just-read'):
+        r5.check(k_ not in bad5, k_, rg.unit + ':regetcontrols', bad5[k_][0] if k_ in bad5 else '', bad5[k_][1] if k_ in bad5 else None)
     sh = prog.fn('sighup', 'qmail-send.c')
     r5.check(any(x.k == 'asg' and x.args[0].path() == 'G:flagreadasap' and x.args[1].const == 1 for x in sh.all_x()), 'sighup-sets-flagreadasap', sh.unit + ':sighup', '')
     mainf = prog.fn('main', 'qmail-send.c')
-    rr = mainf.calls('reread')
-    r5.check(bool(rr) and any(c.path() == 'G:flagreadasap' and t is True for c, t in mainf.guards(rr[0], fresh=False) or []), 'loop-calls-reread-when-flagged', mainf.unit + ':main', '')
+    from qv.lib import deep_calls, guards_through, branch_zero_test
+    rr = deep_calls(prog, mainf, 'reread', depth=2)
+    okrr = bool(rr) and all(any(branch_zero_test(c, t, lambda v: v.path() == 'G:flagreadasap') == 'nonzero' for c, t in guards_through(prog, mainf, f_, c_, fresh=False)) for f_, c_ in rr)
+    r5.check(okrr, 'loop-calls-reread-when-flagged', mainf.unit + ':main', 'reread() is not reached under "flagreadasap is set" from the main loop')
     rrf = prog.fn('reread', 'qmail-send.c')
     r5.check(bool(rrf.calls('regetcontrols')), 'reread-calls-regetcontrols', rrf.unit + ':reread', '')
     r5.expect_min(10)
